@@ -865,6 +865,24 @@ def run(prog, rep, tier):
     if n1315 < 4:
         raise CheckerError("R13.15: only %d pieces found in the decorated printers" % n1315)
 
+    # ------------------------------------------------------------ R13.16 no two same-typed arguments change places on the way to the callee
+    # The options reach the workers and the printers as long positional argument lists in which several
+    # parameters share a type (two FixedOffsets: the zone log lines are read in, the zone datetimes are
+    # printed in).  The compiler cannot tell them apart; the names can: a caller variable named like
+    # parameter B passed for parameter A *and* vice versa is an exchange.  Exact cross-overs only.
+    import argswap as _as_R1316
+    R1316 = rep.rule("R13.16", "the prepend zone and format reach the printers under their own parameter (no exchanged same-typed arguments)")
+    sw_R1316 = _as_R1316.scan(prog)
+    for x_ in sw_R1316:
+        rep.examined(R1316, "%s->%s@%s" % (x_["caller"], x_["callee"], x_["line"]), sample=({k_: x_[k_] for k_ in ("caller", "callee", "same_typed_parameter_pairs", "swapped")} if x_["swapped"] or "processing_loop" in x_["callee"] else None))
+        for (i_, j_, a_, b_, t_) in x_["swapped"]:
+            if not ("FixedOffset" in t_ or "String" in t_ or "bool" in t_):
+                continue
+            rep.violation(R1316, "%s->%s|%s<->%s" % (x_["caller"], x_["callee"], a_, b_), "%s (line %s) calls %s with its `%s` in the place of parameter `%s` and its `%s` in the place of `%s` (both %s): the datetime field is then rendered in the zone meant for reading log lines (or another option takes the value of its neighbour)"
+                          % (x_["caller"], x_["line"], x_["callee"].split("::")[-1], b_, a_, a_, b_, t_))
+    if len(sw_R1316) < 50:
+        raise CheckerError("R13.16: only %d calls with same-typed parameter pairs found" % len(sw_R1316))
+
     return rep.finish(
         "Static necessary-condition check of the decoration path: for all 8 flag combinations of all 4 dispatchers the selected variant writes, "
         "per printed line, the file field then the date field before any message bytes exactly when the flags say so (must-pass-through on the "
